@@ -105,7 +105,7 @@ EXHAUSTIVE = [
     ('words', ' \tx\ny', 5, 7, [('', '')]),
     ('splitlines', 'a \n\r\x0b', 5, 7, [('', '')]),
     ('lower', ''.join(chr(k) for k in range(128)), 1, 2, [('', ''), ('aZ', '{')]),
-    ('blocks', 'a \n', 8, 10, [('', ''), ('message: \n', ''), ('Message:x\n\n', ''),
+    ('blocks', 'a \n', 8, 9, [('', ''), ('message: \n', ''), ('Message:x\n\n', ''),
                               ('t\n', '\n\n')]),
     ('blocks', 'ac \n\t', 5, 7, [('', ''), (' MESSAGE:', '')]),
     ('get_cards', 'c \n&x\t$', 4, 6, [('', ''), ('1', '')]),
@@ -398,7 +398,7 @@ def malform(rng, text):
 
 
 def prepare_layout(res, tier, rng):
-    n_decks = 24 if tier == 'quick' else 300
+    n_decks = 24 if tier == 'quick' else 200
     triples, meta = [], []
 
     def add(name, inp, nontrivial=True):
@@ -559,7 +559,7 @@ def compare(base_text, base, text, desc, numbers, res, args=()):
 
 
 def run_sweep(res, tier, rng):
-    n_decks = 200 if tier == 'quick' else 2500
+    n_decks = 200 if tier == 'quick' else 1800
     n_rewrites = 6
     n_ok = n_fail = 0
     for k in range(n_decks):
